@@ -9,12 +9,14 @@ CONFIG = dict(
              "other signature unchanged), no_overwrite (an already signed input is never re-signed; naming one is an error), "
              "sigs_verify (under the explicit SigScheme hypothesis and entry consistency, every produced signature verifies for the "
              "address of the spent output over (inner hash, uxid)), cant_sign (xpub / encrypted wallets and missing keys give an "
-             "error). 'Fails without partial effect' is a property of the functional model by construction; on the Go side (copy of "
+             "error), created_sigs_verify (every signature of a transaction created and signed by CreateTransactionSigned verifies for "
+             "the address of the output its input spends, for any order in which the chosen inputs revisit addresses). 'Fails without partial effect' is a property of the functional model by construction; on the Go side (copy of "
              "the transaction) it is carried by the tie: the caller's transaction bytes are compared before/after every call. "
              "Tie: real wallet.SignTransaction on real deterministic, bip44, collection and xpub wallets (plain and encrypted) x "
              "ownership patterns x index selections x partially pre-signed transactions; each resulting signature is classified "
              "null / kept byte-identical / new-and-verifies (cipher.VerifyAddressSignedHash) and compared with the model; the driver "
-             "also evaluates the property directly on the implementation's answer.",
+             "also evaluates the property directly on the implementation's answer. wallet.CreateTransactionSigned is driven over "
+             "multi-address wallets with interleaved ownership orders (A,B,A ...) and every input signature is verified against its owner.",
         note="Signatures are random-nonce ECDSA: compared by verification, not byte-for-byte. Precondition of the theorems' panic-"
              "freedom: |sigs| = |inputs| (a transaction that passed Verify, as Visor.WalletSignTransaction guarantees); outside it the "
              "Go function indexes past the signature slice and the model records that panic (exercised by the harness, not a finding "
